@@ -81,6 +81,13 @@ def check_stack(ctx, case_seed):
         if style == 'wrapper_decorator_args' and (i != depth - 1 or (
                 sigs.positional_capacity(fparams) == 0 and not sigs.has_kind(fparams, VA))):
             style = 'wrapper_decorator'
+        prev = decos[-1] if decos else None
+        if prev is not None and not prev[3] and not prev[4] and not prev[2] and style != 'wrapper_decorator_args' and rnd.random() < 0.3:
+            # the very same wrapping function once more, on the neighbouring level (@twice @twice def f): only
+            # for wrapping functions without parameters of their own (a name cannot be advertised twice)
+            decos.append(prev[:5] + (style if style != 'wrapper_decorator_args' else prev[5],))
+            ctx.count('C13.same_wrapper_on_neighbouring_levels')
+            continue
         decos.append(gen_decorator(rnd, i, style))
     style = '+'.join(d[5] for d in decos)
     fn = 'wf%d' % next(_n)
@@ -105,7 +112,8 @@ def check_stack(ctx, case_seed):
         dress = 'plain'
     value_eq = placement != 'function' and rnd.random() < 0.5
     for name, src, n, po, ko, st in decos:
-        lines.append(src)
+        if src not in lines:
+            lines.append(src)
     # decorator objects
     for i, (name, src, n, po, ko, st) in enumerate(decos):
         if st == 'decorator':
